@@ -186,7 +186,10 @@ def _run(V, work, tier):
     cases = tlc_mode(work, V, "sleep", thorough, "Time sleep: %d admission cases decided, SleepBounded checked", invariant="SleepInv")
     runnable = [c for c in cases if c["v"]["slept"] <= 5000]
     if not thorough:
-        runnable = rnd.sample(runnable, min(len(runnable), 700))
+        # (every case in which the sleep is cut short by a cancellation arriving while it is in progress is always run)
+        cut = [c for c in runnable if c["c"]["cancelat"] > 0 and c["v"]["slept"] == c["c"]["cancelat"]]
+        rest_ = [c for c in runnable if not (c["c"]["cancelat"] > 0 and c["v"]["slept"] == c["c"]["cancelat"])]
+        runnable = cut + rnd.sample(rest_, min(len(rest_), 700))
     sres = driver_sharded(binary, "timex", [{"id": i, "sleep": c["c"]} for i, c in enumerate(runnable)], shards=6)
     outs = {}
     for i, c in enumerate(runnable):
